@@ -5,7 +5,7 @@ import vlib
 LEVEL = "model_checking"
 
 IV_INV = ["XTLaws", "S1Unary", "S1Binary", "PPLaws", "R1Unary", "R1Binary", "R2Unary", "R2Binary", "RcUnary", "RcBinary", "Emit"]
-CAP_INV = ["CapUnary", "CapBinary", "ChordLaws", "Emit"]
+CAP_INV = ["CapUnary", "CapBinary", "ChordLaws", "CTLaws", "Emit"]
 
 
 def _k(vals):
@@ -58,7 +58,7 @@ def run(ctx):
     all26 = set(range(1, 27))
     # (13, 14 = the two z-axis directions in TLC's enumeration order: one exact axis-aligned pair always present)
     ca = (set(rnd.sample(range(1, 27), 3)) | {13, 14}) if q else all26
-    consts = {"M": 4, "NL": 3, "ML": 2, "Fams": '{"cap", "chord"}', "CIdxA": ca, "CIdxB": all26,
+    consts = {"M": 4, "NL": 3, "ML": 2, "Fams": '{"cap", "chord", "ct"}', "CtSeed": ctx.seed % 1000000, "CIdxA": ca, "CIdxB": all26,
               "EAK": _k(radii), "EBK": _k(radii if not q else [-8, 0, 4, 8, 16, 24, 31, 32])}
     r = ctx.tlc("Gen_Caps", vlib.cfg(constants=consts, invariants=CAP_INV), workers=12, timeout=1500, heap="8g")
     ctx.replay(_cases(r), timeout=1800)
